@@ -198,6 +198,9 @@ struct Engine
     bool seen_pair_op = false;    // history contains copy/move/swap
     bool seen_rs_grow = false;    // history contains a reserve beyond capacity
     bool faulted = false;
+    // the data block of slot t was allocated for exactly the present capacity and fixed sizes (construction, growing
+    // reserve, copy construction, an assignment that had to allocate) - not kept from an earlier, larger life
+    bool exact_block[2] = {true, true};
     int pending_fail = 0;     // fail(k) was the previous operation: armed for the next one
     bool fault_seen = false;  // some operation of this history ended with an injected allocation failure
     bool last_failed = false; // the last operation did
@@ -291,6 +294,13 @@ struct Engine
     }
 
     // ---------------------------------------------------------------- helpers
+    long block_serial(int t)
+    {
+        if (!m[t].present || m[t].moved || !v[t]) return -1;
+        HarnessScope hs;
+        const Block* b = find_block(reinterpret_cast<uintptr_t>(v[t]->data_begin()), true);
+        return b ? static_cast<long>(b->serial) : -1;
+    }
     static int arena_of(int a) { return TR::ae ? 0 : a; }
     static VAlloc make_alloc(int a) { return VAlloc{arena_of(a)}; }
 
@@ -442,9 +452,28 @@ struct Engine
             L().fail_at = arm;
             L().faults_thrown = 0;
         }
+        long pre_serial[2] = {-1, -1};
+        bool pre_exact[2] = {exact_block[0], exact_block[1]};
+        std::size_t pre_cap[2] = {m[0].cap, m[1].cap};
+        std::vector<std::size_t> pre_fixed[2] = {m[0].fixed, m[1].fixed};
+        for (int t = 0; t < 2; ++t) pre_serial[t] = block_serial(t);
+        const unsigned op_mark = L().op_serial;
         try
         {
             dispatch(o);
+            for (int t = 0; t < 2; ++t)
+            {
+                const long now = block_serial(t);
+                if (now < 0)
+                    exact_block[t] = true;
+                else if (now == pre_serial[t])
+                    exact_block[t] = pre_exact[t] && m[t].cap == pre_cap[t] && m[t].fixed == pre_fixed[t];
+                else if (now == pre_serial[1 - t])
+                    exact_block[t] = pre_exact[1 - t] && m[t].cap == pre_cap[1 - t] && m[t].fixed == pre_fixed[1 - t];
+                else
+                    exact_block[t] = true;  // a block born in this operation
+            }
+            (void)op_mark;
         }
         catch (const std::bad_alloc&)
         {
@@ -1666,12 +1695,15 @@ struct Engine
             expect_start = (elem_end + LS::AMAX - 1) / LS::AMAX * LS::AMAX;
         }
         // C05: a full vector without VaryingSize uses exactly memory_consumption() bytes
-        if (LS::NV == 0 && n == mm.cap && n > 0 && lim == n)
+        // (the clause is about the layout computation: a vector that kept a larger block from before an assignment is
+        // full by capacity() without being tight, which the footprint clause explicitly allows)
+        if (LS::NV == 0 && n == mm.cap && n > 0 && lim == n && exact_block[t])
         {
             const std::size_t used = de - db;
             const std::size_t rounded = (used + LS::AMAX - 1) / LS::AMAX * LS::AMAX;
             if (rounded != cv.memory_consumption())
-                report("C05", "footprint", "full-vector",
+                report("C05", "footprint",
+                       (LS::AMAX > 1 && cv.memory_consumption() == rounded * LS::AMAX) ? "full-vector:bytes-taken-as-units" : "full-vector",
                        "full vector uses %zu bytes (rounded %zu) but memory_consumption() == %zu", used, rounded,
                        cv.memory_consumption());
         }
